@@ -37,6 +37,8 @@ fn statements() -> Vec<String> {
             "nofn(x = 2, y = 3)", "y = snd(snd = 5, 1)", "y = snd(1, 2) + snd(x = 8, 1)",
             // a never-bound name reads as None even if a function of that name is registered
             "x = mul", "sum += 1", "y = max",
+            // numerically equal, differently written: the binding holds what was written last
+            "x = 2.5", "x += 0.00", "x *= 1.0", "x = 0", "x = - 0", "x = [1.0, 'b']",
         ]
         .iter()
         .map(|s| s.to_string()),
